@@ -552,6 +552,25 @@ struct World
 		judge_bind(i, a, port, ec, "bind");
 	}
 
+	// bind() on a socket that already holds a binding. The statement does not say what it reports. If it fails the
+	// binding is unchanged; if it succeeds the socket holds the new endpoint and (at most one endpoint per socket:
+	// close releases "its binding") the old one is free again
+	void op_bind_again(int i, ip::address const& a, int port)
+	{
+		Slot& s = slots[std::size_t(i)];
+		tr(fmt("s%d.bind-again(%s)", i, ap_str(a, port).c_str()));
+		error_code ec;
+		if (s.kind == K_UDP) API(s.udp->bind(ip::udp::endpoint(a, std::uint16_t(port)), ec));
+		else API(s.ts()->bind(ip::tcp::endpoint(a, std::uint16_t(port)), ec));
+		R().count("binds_of_already_bound_socket");
+		if (ec) return; // check_all() verifies that the socket still reports its old binding
+		bool const was_listening = s.listening, unk = s.listen_unknown;
+		ref_release(s);
+		s.listening = was_listening; s.listen_unknown = unk || was_listening;
+		judge_bind(i, a, port, ec, "second bind");
+		R().count("binds_of_already_bound_socket_succeeded");
+	}
+
 	void op_listen(int i)
 	{
 		Slot& s = slots[std::size_t(i)];
@@ -1204,8 +1223,10 @@ void case_random(Args const& a, std::uint64_t c)
 		}
 		else
 		{
-			// bound (or accepted): binding again is API misuse and not generated
-			if (r < 12 && s.kind == K_UDP && s.bound) w.op_poke(i);
+			// bound (or accepted). Binding a socket that holds a binding once more is part of "all sequences of open /
+			// bind / ...": whatever it reports, the socket must not end up holding an endpoint that close() does not release
+			if (r >= 97 && s.bound && !s.accepted && !s.connecting && !s.connected) { ip::address ba; int bp; random_bind_args(w, s, ba, bp); w.op_bind_again(i, ba, bp); }
+			else if (r < 12 && s.kind == K_UDP && s.bound) w.op_poke(i);
 			else if (r < 14 && s.kind == K_ACC) w.op_listen(i);
 			else if (r < 25 && s.kind == K_ACC && s.bound && (s.listening || s.listen_unknown) && int(w.slots.size()) < w.max_slots) w.op_feed(i);
 			else if (r < 25 && s.kind == K_TCP && s.bound && !s.connecting && !s.connected)
